@@ -98,41 +98,70 @@ def _pieces(f):
     return out
 
 
-class _Shape(ast.NodeTransformer):
-    def __init__(self, locs):
-        self.locs = locs
-        self.order = []
-
-    def visit_Name(self, node):
-        if node.id in self.locs:
-            if node.id not in self.order:
-                self.order.append(node.id)
-            return ast.copy_location(ast.Name(id=f"LOCAL{self.order.index(node.id)}", ctx=node.ctx), node)
-        return node
+def _names_in_order(node, locs, out):
+    """Name nodes of local variables in source order (fields in definition order, like ast.unparse prints them)"""
+    if isinstance(node, ast.Name):
+        if node.id in locs:
+            out.append(node)
+        return
+    for _, value in ast.iter_fields(node):
+        if isinstance(value, list):
+            for x in value:
+                if isinstance(x, ast.AST):
+                    _names_in_order(x, locs, out)
+        elif isinstance(value, ast.AST):
+            _names_in_order(value, locs, out)
 
 
 def piece_shape(piece, locs):
-    """(hash of the name-free text, names in placeholder order)"""
-    import copy
-    sh = _Shape(locs)
-    p = sh.visit(copy.deepcopy(piece))
-    try:
-        text = ast.unparse(ast.fix_missing_locations(p))
-    except Exception:
-        return None, []
+    """(hash of the name-free text, names in placeholder order); the piece is renamed in place, printed, and restored"""
     if isinstance(piece, ast.Expr) and isinstance(piece.value, ast.Constant):
         return None, []
-    return hashlib.sha1(text.encode()).hexdigest()[:16], sh.order
+    nodes = []
+    _names_in_order(piece, locs, nodes)
+    order = []
+    saved = [(n, n.id) for n in nodes]
+    try:
+        for n in nodes:
+            if n.id not in order:
+                order.append(n.id)
+        for n, old in saved:
+            n.id = f"LOCAL{order.index(old)}"
+        try:
+            text = ast.unparse(piece)
+        except Exception:
+            return None, []
+    finally:
+        for n, old in saved:
+            n.id = old
+    return hashlib.sha1(text.encode()).hexdigest()[:16], order
 
 
 def describe(f):
     locs = function_locals(f)
-    shapes = []
+    shapes, allh = [], []
     for p in _pieces(f):
         h, names = piece_shape(p, locs)
-        if h is not None and names:
+        if h is None:
+            continue
+        allh.append(h)
+        if names:
             shapes.append([h, names])
-    return {"locals": sorted(locs), "shapes": shapes}
+    return {"locals": sorted(locs), "shapes": shapes, "all": allh}
+
+
+def edit_distance_to_reference(modname, qual, f):
+    """(number of statements changed / added / removed relative to the reference function, number of reference statements),
+    or None when the reference does not know the function (a new function)."""
+    ref = table().get(modname, {}).get(qual)
+    if ref is None:
+        return None
+    from collections import Counter
+    cur = Counter(describe(f)["all"])
+    old = Counter(ref.get("all", []))
+    added = sum((cur - old).values())
+    removed = sum((old - cur).values())
+    return max(added, removed), sum(old.values())
 
 
 def translation(f, ref) -> dict:
@@ -245,9 +274,7 @@ def generate(repo_root: Path) -> dict:
             for st in ast.iter_child_nodes(node):
                 if isinstance(st, (ast.FunctionDef, ast.AsyncFunctionDef)):
                     q = f"{prefix}{st.name}"
-                    d = describe(st)
-                    if d["locals"]:
-                        entry[q] = d
+                    entry[q] = describe(st)
                     rec(st, q + ".")
                 elif isinstance(st, ast.ClassDef):
                     rec(st, f"{prefix}{st.name}.")
